@@ -207,11 +207,10 @@ theorem periodogramCsd_is_gram (tw : ℕ → ℂ) (Fs : ℝ) (n : ℕ) (os : Boo
     by_cases h0 : k = 0
     · subst h0; simp
     · by_cases h1 : k < (N + 1) / 2
-      · simp only [h0, h1, if_true, if_false]; push_cast; ring
+      · simp only [if_neg h0, if_pos h1]; push_cast; ring
       · by_cases h2 : (N + 1) / 2 < N / 2 + 1 ∧ k = N / 2 + 1 - 1
-        · simp only [h0, h1, h2, if_false, if_pos]
-          rw [if_pos trivial]; push_cast; ring
-        · simp only [h0, h1, h2, if_false]; simp
+        · simp only [if_neg h0, if_neg h1, if_pos h2]
+        · simp only [if_neg h0, if_neg h1, if_neg h2]; simp
   · simp only [hos]; simp
 
 theorem periodogramCsd_hermitian (tw : ℕ → ℂ) (Fs : ℝ) (n : ℕ) (os : Bool) (x : ℕ → ℕ → ℂ)
@@ -249,6 +248,25 @@ theorem periodogramCsd_diag (tw : ℕ → ℂ) (Fs : ℝ) (n : ℕ) (os : Bool) 
     · simp only [h0, if_false]
       split_ifs <;> ring
   · simp only [hos, if_false]; norm_num; ring
+
+/-- `periodogramCsd_diag_parseval` (C04 clause): the auto-densities on the diagonal of
+`periodogram_csd` integrate to the mean power of that channel (two-sided; intended normalisation) -/
+theorem periodogramCsd_diag_parseval_twosided {ζ : ℂ} (hN : 0 < N) (hζ : IsPrimitiveRoot ζ N)
+    (hc : (starRingEnd ℂ) ζ = ζ⁻¹) {n : ℕ} (hn : 0 < n) (hnN : n ≤ N) {Fs : ℝ} (hFs : Fs ≠ 0)
+    (x : ℕ → ℕ → ℂ) (i : ℕ) :
+    ∑ k ∈ range N, (periodogramCsdAt (tw ζ) Fs n N false x i i k).re * (Fs / N)
+      = (∑ j ∈ range n, Complex.normSq (x i j)) / n := by
+  simp only [periodogramCsd_diag, Complex.ofReal_re]
+  simpa [outLen] using periodogram_parseval_twosided hN hζ hc hn hnN hFs (x i)
+
+/-- one-sided, real channel -/
+theorem periodogramCsd_diag_parseval_onesided {ζ : ℂ} (hN : 0 < N) (hζ : IsPrimitiveRoot ζ N)
+    (hc : (starRingEnd ℂ) ζ = ζ⁻¹) {n : ℕ} (hn : 0 < n) (hnN : n ≤ N) {Fs : ℝ} (hFs : Fs ≠ 0)
+    (x : ℕ → ℕ → ℂ) (i : ℕ) (hx : ∀ j, (starRingEnd ℂ) (x i j) = x i j) :
+    ∑ k ∈ range (periodogram_csd_Fn N), (periodogramCsdAt (tw ζ) Fs n N true x i i k).re * (Fs / N)
+      = (∑ j ∈ range n, Complex.normSq (x i j)) / n := by
+  simp only [periodogramCsd_diag, Complex.ofReal_re]
+  simpa [outLen] using periodogram_parseval_onesided hN hζ hc hn hnN hFs (x i) hx
 
 /-! ### Welch (`get_spectra`): the completed upper-triangular array -/
 
